@@ -107,6 +107,11 @@ func (req *Request) parse(con *Connection) {
 	p := buf
 	key, value,tmp := "", "",""
 	for p != "" {
+		if strings.HasPrefix(p, "\r\n") {
+			// The blank line ends the headers; it is not part of the body.
+			p = p[len("\r\n"):]
+			break
+		}
 		if key, tmp = match_until(p, ": ");key != "" {
 			p = tmp
 		}
